@@ -749,8 +749,11 @@ def _isinstance(obj, cls):
         if cls is bool or (isinstance(cls, tuple) and bool in cls):
             return obj.__class__ is Bit and (cls is bool or int not in cls)
         return isinstance(obj, cls)
-    if obj.__class__ is SBytes:
-        if cls is bytes or (isinstance(cls, tuple) and bytes in cls):
+    if isinstance(obj, SBytes):
+        from sxl.sbytes import SByteArray
+        mutable = isinstance(obj, SByteArray)
+        classes = cls if isinstance(cls, tuple) else (cls,)
+        if (bytearray in classes and mutable) or (bytes in classes and not mutable):
             return True
         return isinstance(obj, cls)
     if obj.__class__ is Choice:
